@@ -12,9 +12,9 @@ class P:
         self.kw = kw
 
     @staticmethod
-    def node(name, cls='ConfigNode', exact=False, ref=None):
+    def node(name, cls='ConfigNode', exact=False, ref=None, **kw):
         """an object of class `cls` (or, unless exact, any subclass in the closed class table)"""
-        return P(name, 'node', cls=cls, exact=exact, ref=ref)
+        return P(name, 'node', cls=cls, exact=exact, ref=ref, **kw)
 
     @staticmethod
     def val(name, kind='any'):
@@ -65,7 +65,8 @@ class Raises:
 
 
 class Loop:
-    def __init__(self, inv, mod_locals=(), mod_fields=(), decreases=None, mod_objs=None, note=''):
+    def __init__(self, inv, mod_locals=(), mod_fields=(), decreases=None, mod_objs=None, note='', mod_at=None):
+        self.mod_at = mod_at            # optional fn(c, L) -> [(field, [refs])]: fields havocked only at these objects
         self.inv = inv                  # fn(c, L) -> list of (name, Bool) or Bool
         self.mod_locals = tuple(mod_locals)
         self.mod_fields = tuple(mod_fields)   # heap fields havocked by the loop (whole arrays)
@@ -148,6 +149,14 @@ class SpecCtx:
     @property
     def rt(self):
         return self.res.t if hasattr(self.res, 't') else self.res
+
+    def alive(self, r):
+        """object identity r denotes an object that exists in the pre-state of this call.  While a function is verified
+        these are the positive identities; at a call site also everything the caller has allocated so far."""
+        n = getattr(self, 'nalloc', None)
+        if n is None:
+            return r > 0
+        return z3.Or(r > 0, z3.And(r < 0, r >= -n), r < -1000000)
 
     def cid(self, clsname):
         return self.eng.class_id(clsname)
